@@ -31,13 +31,15 @@ EXHAUSTIVE = (
     "(with repetition) of <= 2 queries from the 12 documented loop attributes x query masks over the iteration number "
     "{1, 10, 01, 001, 011} x iterable forms {list, tuple, iterator, generator, sized non-sequence} in the sync "
     "environment and {list, iterator, generator, sized non-sequence, async generator, suspending async generator} in "
-    "the async environment"
+    "the async environment, plus in both, when the items are distinct, a dict and a label-indexed non-dict mapping "
+    "with the items as keys"
 )
 RULE = (
     "(1) itertools enumeration sliced over 16 shards: item sequences over {0,1,2,3} (quick length 0-4; thorough 0-6 for <= 2 "
     "queries and 0-5 for 3 queries) x ordered query selections with repetition from {index, index0, revindex, revindex0, "
     "first, last, length, previtem, nextitem, depth, cycle, changed} (quick <= 2, thorough <= 3) x iteration masks (which iterations, by "
-    "index modulo the mask length, run the queries: 1/10/01/001/011, thorough also 100 for <= 2 queries, 1/10/01 for 3) x 11 iterable-form/environment pairs, each rendered and compared with the "
+    "index modulo the mask length, run the queries: 1/10/01/001/011, thorough also 100 for <= 2 queries, 1/10/01 for 3) x 11 iterable-form/environment pairs (15 when the items are distinct: dict and "
+    "label-indexed mapping keyed by the items, whose [] is not positional), each rendered and compared with the "
     "specification, plus a block of loop.cycle argument shapes (one scalar, one list, one tuple, two scalars, a list among "
     "several) alone and followed by last / length; (1b) enumerated nested loops: the outer loop attribute is read only inside the inner for tag's iterable, "
     "loop filter or else branch (3 positions x attributes x with/without an additional direct use x row sets (6 fixed ones plus all lists of <= 3, "
@@ -62,6 +64,7 @@ ASSUMPTIONS = [
     "the iterable, the loop filter and the else branch of a for tag are outside that loop's own body: `loop` there is "
     "the enclosing loop's (tests/test_core_tags.py::test_loop_errors shows the tag's own loop is not visible there; "
     "docs: loop refers to the innermost loop whose body is being rendered)",
+    "looping over a mapping visits its keys in insertion order and loop attributes describe that key sequence",
     "iterables are consumed once, are not shared between loops and raise nothing; item values are small ints",
     "the exhaustive part drives render_async() by hand (coroutine.send), the Hypothesis part uses asyncio.run",
     "compiled templates are memoised per process by (environment kind, source): templates are stateless (C29)",
@@ -96,6 +99,8 @@ LOOKAHEAD = {"last", "nextitem", "length", "revindex", "revindex0"}
 SYNC_FORMS = ["list", "tuple", "iter", "gen", "sized"]
 ASYNC_FORMS = ["list", "iter", "gen", "sized", "agen", "agen_s"]
 UNSIZED = {"iter", "gen", "agen", "agen_s"}
+# iterables whose [] is a key lookup, not a position (only for sequences of distinct items, which become the keys)
+MAPPING_FORMS = ["dict", "keyed"]
 
 
 # ----------------------------------------------------------------------------------------
@@ -402,6 +407,22 @@ class Sized:
         return iter(list(self._items))
 
 
+class Keyed:
+    """A sized iterable over labels whose [] looks a label up (like a label-indexed series); not a dict."""
+
+    def __init__(self, mapping):
+        self._mapping = dict(mapping)
+
+    def __len__(self):
+        return len(self._mapping)
+
+    def __iter__(self):
+        return iter(list(self._mapping))
+
+    def __getitem__(self, label):
+        return self._mapping[label]
+
+
 def make_iterable(form, items):
     items = list(items)
     if form == "list":
@@ -414,6 +435,11 @@ def make_iterable(form, items):
         return (x for x in items)
     if form == "sized":
         return Sized(items)
+    if form in MAPPING_FORMS:
+        if len(set(items)) != len(items):
+            raise core.HarnessError("mapping form needs distinct items: %r" % (items,))
+        mapping = {k: "V%s" % (k,) for k in items}  # iterating a mapping yields its keys, in insertion order
+        return mapping if form == "dict" else Keyed(mapping)
     if form == "agen":
         async def agen():
             for x in items:
@@ -458,8 +484,12 @@ def _template(envkind, src, undef="default"):
     return t
 
 
-def _forms(envkind):
-    return SYNC_FORMS if envkind == "sync" else ASYNC_FORMS
+def _forms(envkind, items=None):
+    """Forms of the iterable for an environment; with ``items``: also the mapping forms when the items are distinct."""
+    base = SYNC_FORMS if envkind == "sync" else ASYNC_FORMS
+    if items is not None and len(set(items)) == len(items):
+        return base + MAPPING_FORMS
+    return base
 
 
 def _check_q(case):
@@ -470,8 +500,8 @@ def _check_q(case):
     exp = q_expected(items, q, mask)
     for envkind in case.get("envs") or ("sync", "async"):
         t = _template(envkind, src)
-        for form in case.get("forms") or _forms(envkind):
-            if form not in _forms(envkind):
+        for form in case.get("forms") or _forms(envkind, items):
+            if form not in _forms(envkind, items):
                 continue
             seq = make_iterable(form, items)
             got = t.render(seq=seq) if envkind == "sync" else _drive(t.render_async(seq=seq))
@@ -485,6 +515,8 @@ def _check_q(case):
     look = sorted(set(q) & LOOKAHEAD)
     nontrivial = bool(look) and masked and len(items) >= 2
     labels = ["kind_q", "len_%d" % len(items), "nq_%d" % len(q), "mask_" + mask]
+    if len(set(items)) == len(items) and len(items) >= 2:
+        labels.append("q_mapping_forms")
     if look:
         labels.append("q_lookahead_partial" if masked else "q_lookahead_every_iteration")
     return core.Outcome(nontrivial, labels)
@@ -504,8 +536,8 @@ def _render_one(envkind, src, ctx, undef="default"):
 
 def _check_f(case):
     envkind, form = case["env"], case["form"]
-    if form not in _forms(envkind):
-        raise core.HarnessError("form %s in %s environment" % (form, envkind))
+    if form not in _forms(envkind, case["items"]):
+        raise core.HarnessError("form %s in %s environment for %r" % (form, envkind, case["items"]))
     exp, facts = f_expected(case)
     src = f_source(case)
     undef = case.get("undef", "default")
@@ -770,9 +802,11 @@ def _strategies():
 
     @st.composite
     def f_case(draw):
-        envkind, form = draw(env_form())
+        envkind = draw(st.sampled_from(["sync", "async"]))
+        items = draw(st.lists(st.integers(0, 5), max_size=7))
+        form = draw(st.sampled_from(_forms(envkind, items)))  # mapping forms only when the items are distinct
         return {"kind": "f", "env": envkind, "form": form, "undef": draw(st.sampled_from(UNDEFS)),
-                "items": draw(st.lists(st.integers(0, 5), max_size=7)),
+                "items": items,
                 "filter": draw(st.one_of(st.none(), x_cond())),
                 "else": draw(st.booleans()),
                 "body": draw(st.lists(stmt, max_size=5))}
@@ -826,7 +860,7 @@ def _minimise_q(rec, case):
     single (environment, form) restriction of it."""
     whole = rec.violations.pop()
     for envkind in ("sync", "async"):
-        for form in _forms(envkind):
+        for form in _forms(envkind, case["items"]):
             small = dict(case, envs=[envkind], forms=[form])
             probe = core.Rec()
             if not probe.run(check_case, small):
@@ -837,7 +871,7 @@ def _minimise_q(rec, case):
 
 def floors(total, tier):
     lab = total.labels
-    need = {"kind_q": 1000, "q_lookahead_partial": 1000, "kind_f": 1000, "kind_r": 500, "kind_n": 1000, "n_only_nested": 500, "r_neighbour_used_strict": 30,
+    need = {"kind_q": 1000, "q_lookahead_partial": 1000, "kind_f": 1000, "kind_r": 500, "kind_n": 1000, "n_only_nested": 500, "q_mapping_forms": 1000, "form_dict": 50, "form_keyed": 50, "r_neighbour_used_strict": 30,
             "r_neighbour_used_debug": 30, "r_neighbour_used_chainable": 30, "exp_undefined_error": 50, "f_removed": 200, "f_else_due": 100,
             "f_break": 200, "f_continue": 200, "r_depth_3": 50, "r_else_due": 100, "env_async": 500, "form_agen_s": 50}
     low = ["%s=%d<%d" % (k, lab.get(k, 0), v) for k, v in need.items() if lab.get(k, 0) < v]
